@@ -881,6 +881,10 @@ class Emitter:
     def e_index(self, n):
         a, at = self.emit(n.a[0])
         i, _ = self.emit(n.a[1])
+        if at and at.endswith('*') and self.rebase_of(n.a[0]):
+            fire('R18')
+            b = self.rebase_of(n.a[0])
+            return '%s[((%s) - %s) + (%s)]' % (b, a, b, i), self.deref(at)
         if at and at.startswith('vec_'):
             fire('R14')
             return '%s.data[%s]' % (a, i), at[4:]
